@@ -641,3 +641,11 @@ SILENT += [
     ("r6-cmo-rearranged", "jesse/indicators/cmo.py", "                result[i] = 100.0 * (pos_sum - neg_sum) / denom",
      "                result[i] = (pos_sum - neg_sum) / denom * 100.0", ["C15"]),
 ]
+
+SILENT += [
+    ("r6-decimal-helper-extracted", "jesse/utils.py",
+     [("def subtract_floats(float1: float, float2: float) -> float:", "def _to_decimal(value: float) -> Decimal:\n    return Decimal(str(value))\n\n\ndef subtract_floats(float1: float, float2: float) -> float:"),
+      ("    return float(Decimal(str(float1)) - Decimal(str(float2)))", "    return float(_to_decimal(float1) - _to_decimal(float2))"),
+      ("    return float(Decimal(str(float1)) + Decimal(str(float2)))", "    a, b = _to_decimal(float1), _to_decimal(float2)\n    return float(a + b)")],
+     None, ["C17", "C04", "C03"]),
+]
